@@ -32,6 +32,83 @@ theorem fetchBody_ok (check : D) (bufsize : Nat) (body : Body) (expect : Nat) (e
     have : (List.take expect body.content).length = expect := by simp; omega
     simp [this, zeros]
 
+theorem endErr_ne_panic (check : D) (fin : Fin) (acc : Bytes) : endErr hash check fin acc ≠ .panic := by
+  unfold endErr
+  cases fin with
+  | ueof => simp
+  | eof => simp only; split <;> simp
+
+/-- ReadFull + Close never report the `panic` class. -/
+theorem readFullClose_ne_panic (check : D) (b : Body) (need : Nat) :
+    (readFullClose hash check b need).2 ≠ some .panic := by
+  unfold readFullClose
+  have spec := readLoop_spec hash check b.fin b.together b.chunks need []
+  generalize readLoop hash check b.fin b.together b.chunks need [] = r at spec
+  obtain ⟨_, _, _, s4⟩ := spec
+  simp only
+  cases hf : fullErr r.1.length need r.2.1 with
+  | some e =>
+    simp only
+    intro he
+    simp only [Option.some.injEq] at he
+    subst he
+    unfold fullErr at hf
+    split at hf
+    · simp at hf
+    · cases hr : r.2.1 with
+      | none => rw [hr] at hf; simp at hf
+      | some e0 =>
+        have h0 := (s4 e0 hr).2.2
+        rw [hr] at hf
+        have hne : e0 ≠ .panic := by rw [h0]; exact endErr_ne_panic hash check _ _
+        cases e0 <;> simp at hf hne
+        · split at hf <;> simp at hf
+  | none =>
+    simp only
+    unfold closeR
+    cases b.fin with
+    | ueof => simp
+    | eof =>
+      simp only
+      split
+      · simp
+      · split <;> simp
+
+theorem fetchBody_ne_panic (check : D) (bufsize : Nat) (body : Body) (expect : Nat) :
+    (fetchBody hash check bufsize body expect).err ≠ some .panic := by
+  unfold fetchBody
+  split
+  · simp
+  · exact readFullClose_ne_panic hash check body expect
+
+theorem getOrHead_err_ne_panic (loc : List Char) (tries : Nat) (order : List Nat) (g : G) (e : Err) (g' : G)
+    (h : getOrHead loc tries order g = (.err e, g')) : e ≠ .panic := by
+  unfold getOrHead at h
+  split at h
+  · simp at h
+  · dsimp only at h
+    split at h
+    · simp at h
+    · simp at h; rw [← h.1]; simp
+    · simp only [Prod.mk.injEq, GetRes.err.injEq] at h
+      rw [← h.1]
+      split
+      · simp
+      · split <;> simp
+
+/-- No locator, size hint, Content-Length, body or script makes the cache fetch end in `panic`. -/
+theorem fetch_ne_panic (digest : List Char → D) (loc : List Char) (tries : Nat) (order : List Nat) (g : G) :
+    (fetch hash digest loc tries order g).1.err ≠ some .panic := by
+  unfold fetch
+  split
+  · simp
+  · rename_i e g1 hg
+    simp only
+    intro he
+    simp only [Option.some.injEq] at he
+    exact getOrHead_err_ne_panic loc tries order g e g1 hg he
+  · exact fetchBody_ne_panic hash _ _ _ _
+
 theorem emptyLocator_length : emptyLocator.length = 34 := by decide
 
 theorem take32_of_emptyPrefix (loc : List Char) (h : emptyLocator.isPrefixOf loc = true) :
